@@ -1,15 +1,18 @@
 #!/bin/bash
-# usage: tools/try_seed.sh <patch.diff> <PROP> [PROP...]   -- applies the patch to /repo, runs the checks, reverts
+# usage: [SEED_REPO=<checkout>] tools/try_seed.sh <patch.diff> <PROP> [PROP...]  -- applies the patch, runs the named checks, reverts
 set -u
 patch="$1"; shift
-cd /repo || exit 9
-if ! git diff --quiet; then echo "/repo dirty"; exit 9; fi
+REPO="${SEED_REPO:-/repo}"
+V="$(cd "$(dirname "$0")/.." && pwd)"
+cd "$REPO" || exit 9
+if ! git diff --quiet; then echo "$REPO dirty"; exit 9; fi
 if ! git apply --check "$patch" 2>/dev/null; then echo "patch does not apply"; exit 8; fi
 git apply "$patch"
-trap 'git -C /repo checkout -- . ; git -C /repo clean -fdq src' EXIT
-cd /verif
+trap 'git -C "$REPO" checkout -- . ; git -C "$REPO" clean -fdq src' EXIT
+cd "$V"
+export VERIF_REPO="$REPO"
 for p in "$@"; do
-  out=$(./check "$p" --tier quick 2>&1)
+  out=$(./check "$p" --tier quick --repo "$REPO" 2>&1)
   rc=$?
   echo "== $p rc=$rc"
   echo "$out" | grep -v "^VIOLATION\|^KNOWN-FINDING\|WARNING conda" | head -${SEED_LINES:-8} | cut -c1-400
